@@ -7,7 +7,13 @@ from mutate import copy_repo
 
 spec = importlib.util.spec_from_file_location("specs", os.path.join(VERIF, "mutants", "specs.py"))
 specs = importlib.util.module_from_spec(spec); spec.loader.exec_module(specs)
-only = set(sys.argv[1:])
+benign = "--benign" in sys.argv
+only = set(a for a in sys.argv[1:] if not a.startswith("--"))
+if benign:
+    spec = importlib.util.spec_from_file_location("benign", os.path.join(VERIF, "mutants", "benign.py"))
+    specs = importlib.util.module_from_spec(spec); spec.loader.exec_module(specs)
+    specs.MUTANTS = specs.BENIGN
+    os.makedirs(os.path.join(VERIF, "mutants", "benign"), exist_ok=True)
 tmp = tempfile.mkdtemp(prefix="shv-mk-")
 try:
     a = os.path.join(tmp, "a"); copy_repo(a)
@@ -29,7 +35,7 @@ try:
         if not ok:
             continue
         r = subprocess.run(["diff", "-ruN", "a", "b"], cwd=tmp, capture_output=True, text=True)
-        open(os.path.join(VERIF, "mutants", name + ".patch"), "w").write(r.stdout)
+        open(os.path.join(VERIF, "mutants", "benign" if benign else "", name + ".patch"), "w").write(r.stdout)
         print("wrote", name)
 finally:
     shutil.rmtree(tmp, ignore_errors=True)
